@@ -302,6 +302,10 @@ def hist_www(W, ops, prng):
             elif op == "set_type":
                 w.type = "custom"
                 ty = "custom"
+            elif op == "set_type_case":
+                # the scheme is case-insensitive; constructor and parser normalise it to lower case
+                w.type = "Digest"
+                ty = "digest"
             elif op == "set_token":
                 w.token = "t2"
                 tok = "t2"
@@ -328,6 +332,8 @@ def hist_www(W, ops, prng):
             key = "C16/www_authenticate:view-differs-from-shadow-model"
             if op in ("set_type", "set_token", "set_params"):
                 key = "C16/www_authenticate:property-assignment-stored-as-parameter"
+            if w.type != model[0] and w.type.lower() == model[0]:
+                key = "C16/www_authenticate:assigned-type-not-in-normal-form"
             raise Drift(key, f"{hist!r}: view {(w.type, w.token, dict(w.parameters))!r} model {model!r}")
         if hdr is not None and hdr != w.to_header():
             raise Drift("C16/www_authenticate:header-differs-from-view", f"{hist!r}: header {hdr!r} view {w.to_header()!r}")
@@ -340,7 +346,7 @@ def hist_www(W, ops, prng):
     return hist
 
 
-WWW_OPS = ["assign", "assign_token", "set_param_item", "set_param_attr", "del_param", "del_attr", "set_type", "set_token", "set_params", "none_item", "delete", "direct", "reget",
+WWW_OPS = ["assign", "assign_token", "set_param_item", "set_param_attr", "del_param", "del_attr", "set_type", "set_type_case", "set_token", "set_params", "none_item", "delete", "direct", "reget",
            "params_dict_set", "params_pop"]
 
 
